@@ -3,6 +3,8 @@ package obfuscationprocessor
 import (
 	"context"
 
+	"github.com/cyrildever/feistel"
+
 	"go.opentelemetry.io/collector/component"
 	"go.opentelemetry.io/collector/consumer"
 	"go.opentelemetry.io/collector/pdata/pcommon"
@@ -37,6 +39,7 @@ func verifSettings() processor.Settings {
 // reaches the next consumer with its key and value untouched, nothing is added or dropped; a targeted string
 // keeps its length.
 func VerifHarness_C17_factory() {
+	feistel.VerifEHook = rt.UFLookup("E")
 	cfg := createDefaultConfig().(*Config)
 	cfg.KeyLength = 1
 	if rt.Bool("encryptAllSetExplicitly") {
